@@ -207,62 +207,130 @@ def rule_index_space(ctx: Ctx, rule: str = "C01-index-space") -> None:
 # ----------------------------------------------------------------------------
 # C02.1 stage structure
 # ----------------------------------------------------------------------------
+def _sign_and_core(e: ast.expr, mx: bool, mx_text: str):
+    """(sign, core expression) of a score expression for a given value of the maximize flag."""
+    sign = 1
+    while True:
+        if isinstance(e, ast.UnaryOp) and isinstance(e.op, ast.USub):
+            sign, e = -sign, e.operand
+        elif isinstance(e, ast.UnaryOp) and isinstance(e.op, ast.UAdd):
+            e = e.operand
+        elif isinstance(e, ast.IfExp):
+            t = S(e.test)
+            if t == mx_text:
+                e = e.body if mx else e.orelse
+            elif t == "not" + mx_text:
+                e = e.orelse if mx else e.body
+            else:
+                return None, e
+        elif isinstance(e, ast.Call) and S(e.func) in ("np.negative", "numpy.negative") and len(e.args) == 1:
+            sign, e = -sign, e.args[0]
+        elif isinstance(e, ast.BinOp) and isinstance(e.op, ast.Mult) and S(e.left) in ("-1", "-1.0"):
+            sign, e = -sign, e.right
+        elif isinstance(e, ast.BinOp) and isinstance(e.op, ast.Mult) and S(e.right) in ("-1", "-1.0"):
+            sign, e = -sign, e.left
+        else:
+            return sign, e
+
+
 def rule_stage_structure(ctx: Ctx, rule: str = "C02-stages") -> None:
-    fi, paths, main, loops = analyse_get_object_results(ctx)
+    fi, paths, main, loops_all = analyse_get_object_results(ctx)
+    done = set()
+    for p in main:
+        loops = sorted([e for e in p.effects if e.kind == "loop"], key=lambda e: e.node.lineno)
+        if len(loops) != 2:
+            continue
+        sig = tuple(S((e.pre or {}).get(k)) for e in loops for k in sorted(e.pre or {}) if "score" in k or k == "maximize")
+        fixed = None
+        for k, v in p.facts.items():
+            if S(k) in ("truthy:maximize", "truthy:_get_matching_module(matching_mode)[1]"):
+                fixed = v
+        if (sig, fixed) in done:
+            continue
+        done.add((sig, fixed))
+        _stage_structure_on(ctx, rule, fi, loops, [fixed] if fixed is not None else [True, False])
+    ctx.require(bool(done), "get_object_results: no path with both greedy loops")
+
+
+def _stage_structure_on(ctx: Ctx, rule: str, fi, loops, mx_values) -> None:
     infos = []
     for si, eff in enumerate(loops, 1):
         g = loop_info(ctx, eff)
-        arms: Dict[bool, Tuple[str, str]] = {}
-        mx_expr = None
+        arms: Dict[object, Tuple[str, str]] = {}
+        mx_text = S((eff.pre or {}).get("maximize")) if (eff.pre or {}).get("maximize") is not None else "maximize"
         for bp in g.bodies:
             parts = index_parts(bp)
             ctx.require(parts is not None, f"get_object_results: stage {si}: greedy selection idiom not recognised")
             fn, sel, IDX = parts
-            mk = [(k, v) for k, v in bp.conds if k.startswith("truthy:") and "_get_matching_module(" in k or k == "truthy:maximize"]
-            ctx.require(len(mk) == 1, f"get_object_results: stage {si}: the selection arm is not chosen by the maximize flag ({bp.cond_text()[:100]})")
-            mx_expr = strip_v(mk[0][0][7:])
-            arms[mk[0][1]] = (fn, sel)
-        ctx.require(set(arms) == {True, False}, f"get_object_results: stage {si}: both selection arms expected")
-        ok = arms[True][0] == "nanargmax" and arms[False][0] == "nanargmin"
-        ctx.check(ok, rule, "get_object_results", f"stage{si}:arg-best",
-                  f"stage {si} selects with {arms[True][0]} when larger is better and {arms[False][0]} when smaller is better; the best available pair must be taken (nanargmax / nanargmin)",
-                  fi=fi, node=eff.node, expected="nanargmax if maximize else nanargmin", found=f"{arms[True][0]} if maximize else {arms[False][0]}",
-                  sample={"stage": si, "maximize": arms[True][0], "minimize": arms[False][0]})
-        ctx.check(S(mx_expr).startswith("_get_matching_module(matching_mode)[1]") or S(mx_expr) == "maximize", rule, "get_object_results", f"stage{si}:maximize-source",
-                  f"stage {si}: the maximize flag is `{mx_expr}`, not the flag returned by _get_matching_module(matching_mode)", fi=fi)
+            mk = [(k, v) for k, v in bp.conds if S(k) == "truthy:" + mx_text or S(k) == "truthy:maximize"]
+            key = mk[0][1] if mk else None
+            ctx.require(len(mk) <= 1 and key not in arms, f"get_object_results: stage {si}: selection arms not recognised ({bp.cond_text()[:100]})")
+            arms[key] = (fn, sel)
+        ctx.require(set(arms) in ({True, False}, {None}) or (len(mx_values) == 1 and set(arms) == {mx_values[0]}), f"get_object_results: stage {si}: selection arms {sorted(map(str, arms))} not recognised")
+        sel = next(iter(arms.values()))[1]
+        ctx.check(all(v[1] == sel for v in arms.values()), rule, "get_object_results", f"stage{si}:same-table", f"stage {si}: the two arms select from different tables", fi=fi)
+        pre = (eff.pre or {}).get(sel)
+        ctx.require(pre is not None, f"get_object_results: stage {si}: the selection table `{sel}` has no definition before the loop")
+        cores = {}
+        for mx in mx_values:
+            fn = arms.get(mx, arms.get(None))[0]
+            ctx.require(fn in ("nanargmax", "nanargmin", "argmax", "argmin"), f"get_object_results: stage {si}: unknown selector {fn}")
+            score_expr = pre
+            w = pre if isinstance(pre, ast.Call) and S(pre.func) in ("np.where", "numpy.where") and len(pre.args) == 3 else None
+            outer_sign = 1
+            if w is None:
+                outer_sign, inner = _sign_and_core(pre, mx, mx_text)
+                ctx.require(outer_sign is not None, f"get_object_results: stage {si}: cannot determine the sign of `{S(pre)[:80]}`")
+                w = inner if isinstance(inner, ast.Call) and S(inner.func) in ("np.where", "numpy.where") and len(inner.args) == 3 else None
+                score_expr = inner
+            if w is not None:
+                s2, core = _sign_and_core(w.args[1], mx, mx_text)
+                ctx.require(s2 is not None, f"get_object_results: stage {si}: cannot determine the sign of `{S(w.args[1])[:80]}`")
+                sign = outer_sign * s2
+                cores[mx] = ("where", w.args[0], core, w.args[2])
+            else:
+                sign = outer_sign
+                cores[mx] = ("raw", None, score_expr, None)
+            op = "max" if "max" in fn else "min"
+            eff_op = op if sign > 0 else ("min" if op == "max" else "max")
+            want = "max" if mx else "min"
+            ctx.check(eff_op == want and fn.startswith("nan"), rule, "get_object_results", f"stage{si}:arg-best:maximize={int(mx)}",
+                      f"stage {si}, {'larger' if mx else 'smaller'}-is-better modes: the pair is selected with {fn} on {'the negated' if sign < 0 else 'the'} scores, i.e. the "
+                      f"{'largest' if eff_op == 'max' else 'smallest'} score first; the best available pair ({'largest' if mx else 'smallest'} score) must be taken first (NaN-aware)",
+                      fi=fi, node=eff.node, expected=f"arg{want} of the scores", found=f"{fn} of {'-' if sign < 0 else ''}scores",
+                      sample={"stage": si, "maximize": mx, "selector": fn, "sign": sign})
+        ctx.check(mx_text.startswith("_get_matching_module(matching_mode)[1]") or mx_text == "maximize", rule, "get_object_results", f"stage{si}:maximize-source",
+                  f"stage {si}: the maximize flag is `{mx_text}`, not the flag returned by _get_matching_module(matching_mode)", fi=fi)
         ctx.check(g.break_ok, rule, "get_object_results", f"stage{si}:stop-on-all-nan",
                   f"stage {si} does not stop when its selection table holds no candidate (np.isnan(T).all()): nanarg* would raise / pick an unmatchable cell", fi=fi, node=eff.node)
-        sel = arms[True][1]
-        ctx.check(arms[False][1] == sel, rule, "get_object_results", f"stage{si}:same-table", f"stage {si}: the two arms select from different tables", fi=fi)
-        infos.append((eff, sel))
+        infos.append((eff, sel, cores))
     # stage 1 selects on the label-compatible mask, stage 2 on the raw scores left after stage 1
-    eff1, sel1 = infos[0]
-    eff2, sel2 = infos[1]
-    pre1 = (eff1.pre or {}).get(sel1)
-    ok = False
-    found = S(pre1) if pre1 is not None else "?"
-    if isinstance(pre1, ast.Call) and S(pre1.func) in ("np.where", "numpy.where") and len(pre1.args) == 3:
-        c, a, b = pre1.args
-        if isinstance(c, ast.Subscript) and isinstance(a, ast.Subscript) and S(b) in ("np.nan", "numpy.nan", "float('nan')", "math.nan"):
+    eff1, sel1, cores1 = infos[0]
+    eff2, sel2, cores2 = infos[1]
+    for mx in mx_values:
+        kind, c, a, b = cores1[mx]
+        found = S((eff1.pre or {}).get(sel1))
+        ok = kind == "where" and isinstance(c, ast.Subscript) and isinstance(a, ast.Subscript) and S(b) in ("np.nan", "numpy.nan", "float('nan')", "math.nan")
+        if ok:
             ok = S(c.value) == S(a.value) and S(c.value).startswith("_get_score_table(") and S(c.slice) in ("(...,1)", "(Ellipsis,1)") and S(a.slice) in ("(...,0)", "(Ellipsis,0)")
-    ctx.check(ok, rule, "get_object_results", "stage1:mask",
-              f"stage 1 selects from `{found[:140]}`; it must be the scores (column 0 of the score table) masked to NaN wherever the label-compatibility column (column 1) is false",
-              fi=fi, node=eff1.node, expected="np.where(table[..., 1], table[..., 0], np.nan)", found=found[:200])
-    pre2 = (eff2.pre or {}).get(sel2)
-    found2 = S(pre2) if pre2 is not None else "?"
-    ok2 = isinstance(pre2, ast.Subscript) and S(pre2.slice) in ("(...,0)", "(Ellipsis,0)") and isinstance(pre2.value, ast.Name)
-    base2 = strip_v(pre2.value.id) if ok2 else ""
-    # the base must be the full score table as shrunk by stage 1
+        ctx.check(ok, rule, "get_object_results", f"stage1:mask:maximize={int(mx)}",
+                  f"stage 1 selects from `{found[:140]}`; it must be the scores (column 0 of the score table) masked to NaN wherever the label-compatibility column (column 1) is false",
+                  fi=fi, node=eff1.node, expected="np.where(table[..., 1], table[..., 0], np.nan)", found=found[:200])
     shrunk_in_1 = set()
     for bp in loop_info(ctx, eff1).bodies:
         for k, v in bp.env.items():
             if isinstance(v, ast.Call) and S(v.func) == "np.delete":
                 shrunk_in_1.add(k)
-    pre_tab = (eff1.pre or {}).get(base2)
-    ok2 = ok2 and base2 in shrunk_in_1 and pre_tab is not None and S(pre_tab).startswith("_get_score_table(")
-    ctx.check(ok2, rule, "get_object_results", "stage2:raw-rest",
-              f"stage 2 selects from `{found2[:140]}`; it must be the raw scores (column 0) of the score table as left by stage 1 (matched rows/columns removed)",
-              fi=fi, node=eff2.node, expected="score_table[..., 0] after the stage-1 deletions", found=found2[:200])
+    for mx in mx_values:
+        kind, c, core, b = cores2[mx]
+        found2 = S((eff2.pre or {}).get(sel2))
+        ok2 = kind == "raw" and isinstance(core, ast.Subscript) and S(core.slice) in ("(...,0)", "(Ellipsis,0)") and isinstance(core.value, ast.Name)
+        base2 = strip_v(core.value.id) if ok2 else ""
+        pre_tab = (eff1.pre or {}).get(base2)
+        ok2 = ok2 and base2 in shrunk_in_1 and pre_tab is not None and S(pre_tab).startswith("_get_score_table(")
+        ctx.check(ok2, rule, "get_object_results", f"stage2:raw-rest:maximize={int(mx)}",
+                  f"stage 2 selects from `{found2[:140]}`; it must be the raw scores (column 0) of the score table as left by stage 1 (matched rows/columns removed)",
+                  fi=fi, node=eff2.node, expected="score_table[..., 0] after the stage-1 deletions", found=found2[:200])
     ctx.check(eff1.node.lineno < eff2.node.lineno, rule, "get_object_results", "order", "the label-compatible stage must run before the label-agnostic stage", fi=fi)
 
 
@@ -478,8 +546,10 @@ def rule_label_policy(ctx: Ctx, rule: str = "C02-label-policy") -> None:
             "same": next((v for k, v in f.items() if k.startswith("call:is_same_label(")), None),
             "est_unknown": f.get(f"call:{est}.semantic_label.is_unknown()"),
         }
-        extra = [k for k in f if not any(k.startswith(pfx) for pfx in ("call:" + gt, "eq:self==MatchingLabelPolicy.", "call:is_same_label(", "call:" + est + ".semantic_label.is_unknown"))]
-        ctx.require(not extra, f"is_matchable: decision depends on unexpected tests {extra}")
+        extra = [k for k in f if not any(k.startswith(pfx) for pfx in ("call:" + gt + ".semantic_label.is_fp()", "eq:self==MatchingLabelPolicy.", "call:is_same_label(", "call:" + est + ".semantic_label.is_unknown"))]
+        # other predicates on the two labels are treated as atoms the policy table does not mention (the value must then not depend on them)
+        bad_extra = [k for k in extra if not (k.startswith(f"call:{est}.semantic_label.") or k.startswith(f"call:{gt}.semantic_label."))]
+        ctx.require(not bad_extra, f"is_matchable: decision depends on unexpected tests {bad_extra}")
         for pol in ("DEFAULT", "ALLOW_UNKNOWN", "ALLOW_ANY"):
             # is this path consistent with policy `pol`?
             if atoms["any"] is not None and atoms["any"] != (pol == "ALLOW_ANY"):
